@@ -1,12 +1,18 @@
 """_format_callstack on constructed callstacks, and the colour check of _format_trace / _format_log (C14)."""
 import json
+import os
 import re
 import sys
+from datetime import datetime, timezone, timedelta
 from uuid import UUID
 
 from pykdebugparser.callstacks_parser import Callstack, Frame
 from pykdebugparser.pykdebugparser import PyKdebugParser
 
+# colouring is requested through the parser's own switch; make termcolor honour it although stdout is a pipe
+os.environ.pop('NO_COLOR', None)
+os.environ.pop('ANSI_COLORS_DISABLED', None)
+os.environ['FORCE_COLOR'] = '1'
 ANSI = re.compile(r'\x1b\[[0-9;]*m')
 SW = ['show_timestamp', 'show_name', 'show_func_qual', 'show_tid', 'show_process', 'show_args']
 
@@ -30,7 +36,19 @@ def main():
         for tid, pid, nm in case['tm']:
             p.threads_pids[tid] = pid
             p.pids_names[pid] = nm
-        if 'frames' in case:
+        if 'log' in case:
+            lg = case['log']
+            o = type('L', (), {})()
+            o.unix_date = datetime.fromtimestamp(lg['secs'], tz=timezone(timedelta(minutes=lg['tzmin']))) + timedelta(microseconds=lg['usecs'])
+            o.process = lg['process']
+            o.thread_identifier = case['tid']
+            o.composed_message = lg['message']
+            p.color = case['color']
+            try:
+                out.append({'line': p._format_log(o), 'tstext': o.unix_date.strftime('%Y-%m-%d %H:%M:%S.%f')})
+            except Exception as e:  # noqa
+                out.append({'err': repr(e)})
+        elif 'frames' in case:
             frames = [Frame(a, None if u is None else UUID(bytes=bytes.fromhex(u)), off) for a, u, off in case['frames']]
             p.color = False
             out.append({'line': p._format_callstack(Callstack(case['ts'], case['tid'], frames))})
